@@ -218,6 +218,12 @@ def plugin_path(search_paths):
 
 def resolve_plugin(plugin: str, lineinfo) -> object:
     """Resolve a plugin to a class"""
+    if not isinstance(plugin, str):
+        raise exc.DataGenSyntaxError(
+            f"Plugin name should be a string, not `{plugin}`",
+            lineinfo.filename,
+            lineinfo.line_num,
+        )
     cls = resolve_plugin_alternatives(plugin)
     if not cls:
         raise exc.DataGenImportError(
